@@ -169,7 +169,12 @@ Definition mkdir (f : fs) (p : path) (mode : Z) : result fs :=
   | Ok q =>
       match get f q with
       | Some _ => Err EExist
-      | None => if is_nil q then Err EExist else Ok (set (touch_dir f (parent q)) q (mk_inode KDir mode))
+      | None =>
+          if is_nil q then Err EExist else
+          (* a directory created inside a set-group-ID directory inherits that bit *)
+          let pm := match get f (parent q) with Some i => i_mode i | None => 0 end in
+          let mode' := if Z.land pm 1024 =? 0 then mode else Z.lor mode 1024 in
+          Ok (set (touch_dir f (parent q)) q (mk_inode KDir mode'))
       end
   | Err e => Err e
   end.
